@@ -53,6 +53,7 @@ def run(ctx):
         n += eng.evaluate_entry(ctx, "T5-range-guard", e, lambda t, ints=ints: t[0] == "param" and t[1] in ints)
     ctx.floor("parameter-origin panic sites in the query scope", n, 20)
     query_ranges(ctx)
+    table_slots(ctx)
     ctx.notes.append("T5 engine stats: %s" % eng.stats)
 
 
@@ -117,6 +118,38 @@ def query_ranges(ctx):
     srcs = [range_of(b, b.origin(t["args"][0]), g) for bi, t in b.calls("Iterator::next")]
     okr = any(r is not None and r[0] == ("int", 1) and r[2] and r[1] == ("call", D + "size", (me(b),)) for r in srcs)
     ctx.require(okr, "T4-query-ranges", b.name, "1..=size()", "every chamber is a candidate representative", "orbit_reps_2d does not scan all chambers 1..=size()")
+
+
+def table_slots(ctx):
+    """T4: the symbol representations read r from the orbit-length table and v from the branching table, through the orbit index of the
+    smaller of the two adjacent indices, in both argument orders (necessary for symmetry in i, j and agreement of the representations)"""
+    g = ctx.facts.getters()
+    ctx.clauses.append("r reads orbit_rs, v reads orbit_vs, via orbit_index[min(i, j)], in both argument orders (T4)")
+    for rep in REPS[2:]:
+        for fn, table in (("<%s as dsets::DSet>::r" % rep, "orbit_rs"), ("<%s as dsyms::DSym>::v" % rep, "orbit_vs")):
+            b = ctx.facts.bodies.get(fn)
+            if b is None:
+                continue
+            me = ("param", 1, b.debug.get(1, ""))
+            i_, j_, d_ = [("param", k, b.debug.get(k, "")) for k in (2, 3, 4)]
+            n = 0
+            for bi, t in b.calls("ops::Index::index"):
+                base = norm(b.origin(t["args"][0]), g)
+                if not (base[0] == "field" and base[1] == me and base[2] in ("orbit_rs", "orbit_vs")):
+                    continue
+                n += 1
+                idx = norm(b.origin(t["args"][1]), g)
+                fa = [atom_norm(a, g) for a in b.facts_at(bi)]
+                up = any(implies(h, ("rel", "Eq", j_, ("field", ("binop", "AddWithOverflow", i_, ("int", 1)), "0"))) for h in fa)     # j == i + 1
+                down = any(implies(h, ("rel", "Eq", i_, ("field", ("binop", "AddWithOverflow", j_, ("int", 1)), "0"))) for h in fa)   # i == j + 1
+                low = i_ if up else (j_ if down else None)
+                want = ("call", "std::ops::Index::index", (("call", "std::ops::Index::index", (("field", me, "orbit_index"), low)), d_)) if low is not None else None
+                ok = base[2] == table and want is not None and idx == want
+                ctx.ob("T4-orbit-table-slots", fn, "%s[orbit_index[%s][d]]" % (base[2], "i" if up else "j" if down else "?"), "ok" if ok else "violation",
+                       "reads %s through the orbit index of the smaller index" % table if ok else
+                       "%s reads %s[%s] in the branch %s: expected %s[orbit_index[min(i, j)][d]] - r, v and m are then not symmetric in (i, j) / the representations disagree" % (
+                           fn.split("::")[-1], base[2], show(idx, 1)[:50], "j == i + 1" if up else "i == j + 1" if down else "(unrecognised guard)", table), b.span_of(bi))
+            ctx.floor("orbit table reads in " + fn, n, 2)
 
 
 def sweep(ctx):
